@@ -287,7 +287,7 @@ def monitor_long_lists(ctx):
                     ctx.case(case, nontrivial_key=('longlist', n, label, ordered, what), kind='long-list:' + what)
         # nested unordered ListGrader: the group credits are consolidated too
         k = rng.choice([2, 3])
-        if n % k == 0 and n // k <= 7:
+        if n % k == 0 and 2 <= n // k <= 7:
             m = n // k
             groups = [[words[a * k + b] for b in range(k)] for a in range(m)]
             g = ListGrader(answers=groups, subgraders=ListGrader(subgraders=StringGrader(), ordered=False), grouping=[a + 1 for a in range(m) for _ in range(k)], ordered=False)
